@@ -100,6 +100,14 @@ def cases(tier, seed):
     for v in singles:
         for nan in (True, False):
             yield dict(kind="maxabs", arrays=[v], nan=nan)
+    # the same values arranged as 2-D / 3-D arrays, 0-d arrays, lists and mixtures (seed C13-12: a matrix norm instead of the largest
+    # absolute value)
+    four = [list(v) for v in itertools.product(MV, repeat=4) if sum(1 for x in v if x != x) <= 1][::3]
+    for v in four:
+        for nan in (True, False):
+            for shp in ([2, 2], [4, 1], [1, 4], [1, 2, 2]):
+                yield dict(kind="maxabs", arrays=[v], nan=nan, shape=shp)
+            yield dict(kind="maxabs", arrays=[v[:2], v[2:]], nan=nan, shape=[2, 1])
     small = [list(v) for v in _vecs(MV, 2)]
     second = singles if tier == "thorough" else small
     for a in singles:
@@ -387,6 +395,8 @@ def run(case, rec):
         return
     if kind == "maxabs":
         arrays = [np.array(a) for a in case["arrays"]]
+        if case.get("shape"):
+            arrays = [a.reshape(case["shape"]) for a in arrays]
         nan = case["nan"]
         got = call(rec, vd.maxabs, *arrays, nan=nan)
         allv = [v for a in case["arrays"] for v in a]
